@@ -129,6 +129,31 @@ finding(id="KF-C05-numpy-left-operand", property="C05", status="open",
                "when": "spelling == 'operator' and arg_carrier[0] in ('ndarray', 'npscalar')"},
         witness=witness(w_numpy_left))
 
+def _constfn(rec, fn, args, p, index_result=False):
+    rec.do("constfn", args, keep=False, fn=fn, p=p, spelling="numpoly", index_result=index_result, np=[], np_out="ret")
+
+
+def w_amax_axis(rec):
+    a = rec.new(poly((2, 2), (0,), [[0]], [[2, 3, 1, 0]]))
+    _constfn(rec, "amax", [a], {"axis": 1})
+
+
+finding(id="KF-C11-amax-axis-order", property="C11", status="open",
+        what="amax/amin/max/min with an axis return the right set of extremes in the wrong order whenever more than one is returned (amax([[2,3],[1,0]], axis=1) is [1,3], numpy gives [3,1]): the selected elements are re-ordered by argsort(indices) instead of its inverse. test_amax/test_amin/test_max/test_min compare against exactly these wrongly ordered values, so the repair would make them fail",
+        match={"act": "constfn", "clauses": ["value"], "when": "fn in ('amax', 'amin', 'max', 'min') and 'axis' in p and arg_ndim[0] >= 2"},
+        witness=witness(w_amax_axis))
+
+
+def w_argmax_ties(rec):
+    a = rec.new(poly((4,), (0,), [[0]], [[3, 1, 3, 2]]))
+    _constfn(rec, "argmax", [a], {}, index_result=True)
+
+
+finding(id="KF-C11-argmax-ties", property="C11", status="open",
+        what="argmax/argmin on ties do not return the first occurrence (argmax([3,1,3,2]) is 2, numpy gives 0): sortable_proxy must be a permutation (C19), so equal elements get distinct ranks and the extreme rank is not the first occurrence; serving both needs a tie-aware selection, not a one-line patch",
+        match={"act": "constfn", "clauses": ["value"], "when": "fn in ('argmax', 'argmin') and arg_ties[0]"},
+        witness=witness(w_argmax_ties))
+
 # --------------------------------------------------------------------- fixed
 FIXED = [
     ("C01", "8ccbe55", "power with an array exponent: transposed / wrongly broadcast result for 3-d operands and for base and exponent of different ndim"),
@@ -150,6 +175,8 @@ FIXED = [
     ("C13", "f4ac822", "savetxt -> loadtxt failed for 0-d, single-element and single-term polynomials; loadtxt dropped the first row of a plain file given as file object"),
     ("C13", "139eb2e", "pickling dropped retained all-zero terms (exponents of align_polynomials output changed across pickle)"),
     ("C16", "82bae26", "str/repr of complex coefficients with negative real part lost the '+' between terms"),
+    ("C11", "e66f54d", "count_nonzero ignored keepdims"),
+    ("C08", "93489bd", "ufunc.reduce/accumulate without numpoly counterpart (numpy.subtract.reduce(p)) raised KeyError instead of FeatureNotSupported"),
     ("C03", "64ca5a4", "monomial over an empty index range in D > 1 dimensions returned an object whose storage key width (1) did not match its D names"),
 ]
 
